@@ -45,7 +45,7 @@ def run(ctx):
         ctx.exception(sym, why)
     ctx.exception("impl world::entity::Allocator", "the allocator is the definition of aliveness, it holds no components")
     for cfg in configs(ctx.tier):
-        facts = ctx.facts(cfg)
+        facts = ctx.xfacts(cfg)
         run_config(ctx, facts)
     if True:
         from .. import witness
